@@ -16,6 +16,8 @@ import (
 	"sync"
 	"time"
 
+	"github.com/99designs/gqlgen/graphql/executor"
+	"github.com/99designs/gqlgen/graphql/handler/extension"
 	"github.com/vektah/gqlparser/v2/ast"
 
 	"verif/internal/diffrun"
@@ -64,6 +66,12 @@ func main() {
 	}
 	var evals int64
 	var mu sync.Mutex
+	// introspection fields are ordinary fields of the executor: list elements of __Type are
+	// completed concurrently and concurrent requests share one *ast.Schema. This stage runs first,
+	// on a schema nothing has touched yet.
+	for _, name := range names {
+		evals += introspectStage(rep, name, servers[name].env)
+	}
 	orders := map[string]map[string]bool{} // case -> set of completion-order hashes
 	for _, np := range procs {
 		runtime.GOMAXPROCS(np)
@@ -230,4 +238,67 @@ func checkSerial(rep *ev.Reporter, cid diffrun.Case, order []string, evs []univ.
 			prevEnd = maxEnd[i]
 		}
 	}
+}
+
+const introQuery = `{ __schema { types { name kind fields(includeDeprecated:true) { name type { name ofType { name possibleTypes { name } } possibleTypes { name } } } interfaces { name possibleTypes { name } } possibleTypes { name interfaces { name } } enumValues(includeDeprecated:true) { name } inputFields { name } } directives { name locations args { name } } } }`
+
+// introspectStage: 12 concurrent introspection requests, each reaching every abstract type from
+// several list elements at once, must all answer alike (and like a later, serial request); the race
+// detector watches the shared schema meanwhile.
+func introspectStage(rep *ev.Reporter, name string, env *univ.Env) int64 {
+	ex := executor.New(env.ES)
+	ex.Use(extension.Introspection{})
+	srv := &drive.Server{Env: env, Exec: ex}
+	const n = 12
+	outs := make([]string, n+1)
+	one := func(i int) {
+		r := srv.Run(context.Background(), &univ.Run{Plan: env.DefaultPlan}, introQuery, "", nil, 60*time.Second)
+		switch {
+		case r.TimedOut:
+			outs[i] = "timeout"
+		case len(r.RequestErrors) > 0:
+			outs[i] = "refused: " + strings.Join(r.RequestErrors, "; ")
+		case len(r.Payloads) != 1:
+			outs[i] = fmt.Sprintf("%d payloads", len(r.Payloads))
+		default:
+			outs[i] = string(r.Payloads[0].Raw)
+		}
+	}
+	var wg sync.WaitGroup
+	start := make(chan struct{})
+	for i := 0; i < n; i++ {
+		wg.Add(1)
+		go func(i int) { defer wg.Done(); <-start; one(i) }(i)
+	}
+	close(start)
+	wg.Wait()
+	one(n)
+	if strings.HasPrefix(outs[n], "refused") || outs[n] == "timeout" || !strings.Contains(outs[n], `"possibleTypes":[{`) && len(env.Schema.PossibleTypes) > 0 && hasAbstract(env) {
+		rep.Violate("", map[string]any{"probe": name, "why": "introspection request not answered as expected: " + clip(outs[n])})
+		return n + 1
+	}
+	for i := 0; i < n; i++ {
+		if outs[i] != outs[n] {
+			rep.Violate("", map[string]any{"probe": name, "why": "concurrent introspection requests answered differently", "one": clip(outs[i]), "serial": clip(outs[n])})
+			return n + 1
+		}
+	}
+	rep.Count("concurrent_introspection_requests_agreeing", n)
+	return n + 1
+}
+
+func hasAbstract(env *univ.Env) bool {
+	for _, d := range env.Schema.Types {
+		if (d.Kind == ast.Interface || d.Kind == ast.Union) && !strings.HasPrefix(d.Name, "__") && len(env.Schema.PossibleTypes[d.Name]) > 0 {
+			return true
+		}
+	}
+	return false
+}
+
+func clip(s string) string {
+	if len(s) > 400 {
+		return s[:400] + "..."
+	}
+	return s
 }
